@@ -98,6 +98,13 @@ def apply(F, t):
         return S.FlipPolarity(F)
     if name in ('xorcomp', 'majcomp'):
         B = gen.mk_bip({'l': t['l'], 'r': t['r'], 'edges': t['B']})
+        if len(t['B']) % 2:
+            # the caller's graph object is used for other compressions first (a graph is an input, not scratch space)
+            for fn in ('maj', 'xor'):
+                try:
+                    S.VariableCompression(F, B, fn)
+                except ValueError:
+                    pass
         return S.VariableCompression(F, B, 'xor' if name == 'xorcomp' else 'maj')
     raise KeyError(name)
 
